@@ -1,7 +1,7 @@
 // C13 harness: Bitmap_cubical_complex over the plain and the periodic base class, observed through the public API.
 // stdin : "G <base|per> <top|vert> <d> <sizes x d> <mask x d> <values...>" builds a complex, then one query per line.
 // stdout: one answer line per input line.
-//   dims | vals | bd | cobd | inc | filt | topc | verts | skel <k> | incx <coface> <face> | pers <p> | key
+//   dims | vals | bd | cobd | inc | filt | topc | verts | skel <k> | incx <coface> <face> | pers <p> | tcof | vtx | key
 #include <iostream>
 #include <sstream>
 #include <string>
@@ -143,6 +143,14 @@ struct Holder : Any {
         r += std::to_string(std::get<0>(iv[k])) + ":" + fv(std::get<1>(iv[k])) + ":" + (std::get<3>(iv[k]) ? std::string("ess") : fv(std::get<2>(iv[k])));
       }
       if (r.empty()) r = "-";
+      return r;
+    }
+    if (op == "tcof") {  // precondition: values imposed from the top cells
+      for (std::size_t i = 0; i < n; ++i) { if (i) r += ' '; r += std::to_string(K.get_top_dimensional_coface_of_a_cell(i)); }
+      return r;
+    }
+    if (op == "vtx") {   // precondition: values imposed from the vertices
+      for (std::size_t i = 0; i < n; ++i) { if (i) r += ' '; r += std::to_string(K.get_vertex_of_a_cell(i)); }
       return r;
     }
     if (op == "key") {   // assign_key / key / endpoints plumbing
